@@ -441,6 +441,12 @@ Proof.
     pose proof (QI_conn_close cfg fx s c Hfx H) as Hc.
     destruct (conn_close cfg fx s c) as [s1 e1]. exact Hc.
   - (* LAccept *) destruct (get_conn s c); cbn [fst]; sq.
+  - (* LBadMethod *)
+    destruct (get_conn s c) as [cn0|]; [|exact H].
+    destruct (negb _ && negb _)%bool; [apply QI_conn_close; auto|].
+    apply QI_apply_err_st; auto. cbn [fst]. sq.
+  - (* LHeartbeat *)
+    destruct (get_conn s c); [|exact H]. destruct (h =? 0); [exact H|apply QI_conn_close; auto].
 Qed.
 
 Lemma QI_init cfg : QI (init cfg).
